@@ -2,6 +2,7 @@
 from __future__ import annotations
 
 import ast
+from ..core import utext
 
 from ..core import DefUse, Program, dotted, ancestors
 
@@ -39,7 +40,7 @@ def autoviv_sites(prog: Program, cls: str) -> dict[str, list[tuple[str, str]]]:
                                    if _is_defaultdict_call(x)]
                             if hit:
                                 out.setdefault(t.attr, []).append(
-                                    (f"{fi.short}: {ast.unparse(node)[:100]}",
+                                    (f"{fi.short}: {utext(node)[:100]}",
                                      fi.loc(node)))
                                 break
     return out
@@ -47,3 +48,20 @@ def autoviv_sites(prog: Program, cls: str) -> dict[str, list[tuple[str, str]]]:
 
 def autoviv_slots(prog: Program, cls: str) -> set[str]:
     return set(autoviv_sites(prog, cls))
+
+
+def merge_rules(res, tmp, rules) -> None:
+    """Copies the obligations / findings / errors of the named rules from a
+    scratch Result (another property's checker run on the same program)."""
+    for r in rules:
+        if r in tmp.rules:
+            res.rules[r] = tmp.rules[r]
+    res.obligations += [o for o in tmp.obligations if o.rule in rules]
+    for f in tmp.findings:
+        if f.rule in rules and f.ident() not in {
+                x.ident() for x in res.findings}:
+            res.findings.append(f)
+    for e in tmp.errors:
+        if any(e.startswith(r) or f" {r} " in e or e.startswith(f"{r}:")
+               for r in rules) and e not in res.errors:
+            res.errors.append(e)
